@@ -294,6 +294,18 @@ def main():
     for i in range(n // 6):
         words = [rnd.choice(["This", "is", "a", "string.", "007x", "1.5.2x", "abc def", "1e5", "/a/b.csv ", "x  y", "12 monkeys", "a:b", "k: v w", "3.0 m", "-5x", "+.5y"]) for _ in range(rnd.randint(1, 3))]
         jobs.append(("multiword", "A = Cmd(P = %s, Q = [%s])" % (" ".join(words), ", ".join(words)), None))
+    # lists that mix plain elements and key: value pairs are malformed, wherever they occur (the grammar accepts them; an action rejects them)
+    for i in range(n // 8):
+        plain = lambda: rnd.choice(["a", "1", "'x'", "2.5", "[b, c]", "res_x"])
+        pair = lambda: "%s: %s" % (rnd.choice(["k", "m", '"a b"', "j"]), rnd.choice(["v", "1", '"w"', "0.5"]))
+        items = [plain() for _ in range(rnd.randint(1, 2))] + [pair() for _ in range(rnd.randint(1, 2))]
+        if rnd.random() < 0.3:
+            items.append(plain())
+        bad = "B = Cmd(P = 1, Q = [%s]%s)" % (", ".join(items), rnd.choice(["", ", R = x"]))
+        before = ["A%d = Cmd(X = %d)" % (j, j) for j in range(rnd.randint(0, 2))]
+        after = ["Z%d = Cmd(Y = [k: v])" % j for j in range(rnd.randint(0, 2))]
+        jobs.append(("corrupted", rnd.choice(["\n", "\n\n", "\r\n"]).join(before + [bad] + after) + "\n", None))
+        dist["mixed_lists"] = dist.get("mixed_lists", 0) + 1
     rnd.shuffle(jobs)
     for kind, src, exp in jobs:
         use_shared = rnd.random() < 0.5
@@ -315,6 +327,10 @@ def main():
             seen.add(src)
             if (src.count("\n") >= 1 or "#" in src or ",)" in src.replace(" ", "")) and "=" in src:
                 nontrivial += 1
+        if o[0] == "escaped" and o[1] == "None" and prop == "C10":
+            # neither a syntax error nor a parse tree: the text was not rejected and nothing of what was written is delivered
+            fails.append({"sig": "C10:malformed-not-rejected", "what": "parse() raised no syntax error and returned None", "replay": replay})
+            continue
         if o[0] == "escaped":
             fails.append({"sig": "C13:escape:%s" % o[1], "what": "the parser let %s escape: %s" % (o[1], o[2]), "replay": replay})
             continue
@@ -363,7 +379,7 @@ def main():
         from mpilot.exceptions import MPilotError
         wd = tempfile.mkdtemp(prefix="c11-", dir=os.getcwd())
         open(os.path.join(wd, "d.csv"), "w").write("a,b\n1,2\n3,4\n")
-        for i in range(max(20, n // 8)):
+        for i in range(max(48, n // 5)):
             nl = rnd.choice(["\n", "\n", "\r\n"])
             lines = []
             # comments may hold characters that str.splitlines() treats as line boundaries but the lexer (and a file read line by line) does not
@@ -375,21 +391,31 @@ def main():
             lines.append("    InFieldName = a")
             lines.append(")")
             pad()
-            fault = rnd.choice(["unknown-command", "bad-number", "missing-result", "undeclared", "missing-arg", "duplicate", "fuzzy", "bad-path"])
+            fault = rnd.choice(["unknown-command", "bad-number", "missing-result", "undeclared", "missing-arg", "duplicate", "fuzzy", "bad-path",
+                                "rt-empty", "rt-header", "rt-weights", "rt-dupraw"])
             start = len(lines) + 1
+            allowed = None      # run-time faults: the lines an error may carry (None = no line at all, which claims nothing)
             if fault == "unknown-command":
                 lines += ["B = NoSuch(", "    InFieldName = A", ")"]
                 want, cls = start, "CommandDoesNotExist"
             elif fault == "bad-number":
-                if rnd.random() < 0.5:
+                k = rnd.random()
+                if k < 0.3:
                     lines += ["B = CvtToFuzzy(", "    InFieldName = A,", "", "    TrueThreshold = [1, 2],", "    FalseThreshold = 0", ")"]
                     want, cls = start + 3, "ParameterNotValid"
+                elif k < 0.5:   # a list value that opens on a later line than its argument name: the argument still starts at its name
+                    lines += ["B = CvtToFuzzy(", "    InFieldName = A,", "    TrueThreshold", "      =", "        [1, 2],", "    FalseThreshold = 0", ")"]
+                    want, cls = start + 2, "ParameterNotValid"
                 else:     # the value starts on a later line than its argument name
                     lines += ["B = CvtToFuzzy(", "    InFieldName = A,", "    TrueThreshold =", "", "        abc,", "    FalseThreshold = 0", ")"]
                     want, cls = start + 2, "ParameterNotValid"
             elif fault == "missing-result":
-                lines += ["B = Sum(", "    InFieldNames = [", "        A,", "        Ghost", "    ]", ")"]
-                want, cls = start + 1, "ResultDoesNotExist"
+                if rnd.random() < 0.5:
+                    lines += ["B = Sum(", "    InFieldNames = [", "        A,", "        Ghost", "    ]", ")"]
+                    want, cls = start + 1, "ResultDoesNotExist"
+                else:
+                    lines += ["B = Sum(", "", "    InFieldNames =", "    [", "        A,", "        Ghost", "    ]", ")"]
+                    want, cls = start + 2, "ResultDoesNotExist"
             elif fault == "undeclared":
                 lines += ["B = Copy(", "    InFieldName = A,", "    Bogus = 1", ")"]
                 want, cls = start + 2, "NoSuchParameter"
@@ -406,6 +432,27 @@ def main():
                 else:
                     lines += ["B = FuzzyNot(", "    InFieldName", "    =", "    A", ")"]
                     want, cls = start + 1, "ResultNotFuzzy"
+            elif fault.startswith("rt-"):
+                # faults that only show when the command executes; the faulty command is not a leaf, so it executes while Program.run
+                # is running some other command that (transitively) needs it
+                if fault == "rt-empty":
+                    open(os.path.join(wd, "empty.csv"), "w").close()
+                    lines += ["R = EEMSRead(", "    InFileName = empty.csv,", "    InFieldName = a", ")"]
+                    cls, allowed = "EmptyDataFile", [None, start, start + 1]
+                elif fault == "rt-header":
+                    lines += ["R = EEMSRead(", "    InFileName = d.csv,", "", "    InFieldName = zzz", ")"]
+                    cls, allowed = "InvalidDataFile", [None, start, start + 3]
+                elif fault == "rt-weights":
+                    lines += ["R = WeightedSum(", "    InFieldNames = [A, A],", "    Weights = [1]", ")"]
+                    cls, allowed = "MismatchedWeights", [None, start, start + 2]
+                else:
+                    lines += ["R = NormalizeCurve(", "    InFieldName = A,", "", "    RawValues = [1, 1, 2],", "    NormalValues = [0, 1, 2]", ")"]
+                    cls, allowed = "DuplicateRawValues", [None, start, start + 3]
+                pad()
+                lines += ["C = Copy(InFieldName = R)"]
+                pad()
+                lines += ["D = Sum(", "    InFieldNames = [C, A]", ")"]
+                want = start
             else:
                 if rnd.random() < 0.5:
                     lines += ["B = EEMSRead(", "    InFieldName = a,", "    InFileName = nofile.csv", ")"]
@@ -426,7 +473,12 @@ def main():
                 if type(ex).__name__ != cls:
                     fails.append({"sig": "C11:error-class", "what": "fault %s reported as %s" % (fault, type(ex).__name__), "replay": replay})
                     continue
-                if getattr(ex, "lineno", None) != want:
+                if allowed is not None:
+                    if getattr(ex, "lineno", None) not in allowed:
+                        fails.append({"sig": "C11:error-line:%s" % cls, "what": "%s carries line %r; the offending command starts on line %d (its arguments: lines %r) and other commands were running it" % (
+                            cls, getattr(ex, "lineno", None), start, allowed[2:]), "replay": replay})
+                        continue
+                elif getattr(ex, "lineno", None) != want:
                     fails.append({"sig": "C11:error-line:%s" % cls, "what": "%s carries line %r; the offending %s is on line %d" % (cls, getattr(ex, "lineno", None), "command" if want == start else "argument", want), "replay": replay})
                     continue
             except SyntaxError:
@@ -441,7 +493,11 @@ def main():
                 dist["cli_runs"] += 1
                 marked = [ln for ln in pr.stderr.split("\n") if ln.startswith("--> ")]
                 expect_text = src.replace("\r\n", "\n").split("\n")[want - 1]
-                if pr.returncode == 0 or len(marked) != 1 or marked[0][4:] != expect_text:
+                if allowed is not None:
+                    texts = [src.replace("\r\n", "\n").split("\n")[k - 1] for k in allowed if k is not None]
+                    if pr.returncode == 0 or len(marked) > 1 or (marked and marked[0][4:] not in texts):
+                        fails.append({"sig": "C11:cli-marked-line", "what": "the command-line tool marks %r for a fault of the command on line %d (exit %d)" % (marked, start, pr.returncode), "replay": replay})
+                elif pr.returncode == 0 or len(marked) != 1 or marked[0][4:] != expect_text:
                     fails.append({"sig": "C11:cli-marked-line", "what": "the command-line tool marks %r; the offending line %d is %r (exit %d)" % (marked, want, expect_text, pr.returncode), "replay": replay})
     files = []
     CH = 60
